@@ -21,7 +21,7 @@ from harness.core import z, lst, opt
 
 WAITS = [None, None, 0, -8, 1, 2, 4, 8, 8, 12, 16, 24, 32]
 DTS = [0, 1, 4, 8, 8, 16, 24]
-NONGEN = [-1, -2, -3, -4]
+NONGEN = list(range(-12, 0))     # names of the non-generator objects, see run()
 
 
 def tags_for(v):
@@ -69,7 +69,7 @@ def gen_case(rng, kills, nested, nframes=None, raises=0.25):
     started_once = set()
 
     def target(for_start, frame=None):
-        if rng.random() < 0.04 and kills > 0:
+        if rng.random() < 0.07 and kills > 0:
             return rng.choice(NONGEN)
         if for_start:
             cands = longs + [g for g in shorts if g not in started_once]
@@ -284,7 +284,20 @@ def run(case):
     def nongen_fn():
         yield
 
-    nongen = {-1: 42, -2: nongen_fn, -3: None, -4: 'generator'}
+    class HandIterator:                 # an iterator that is not a generator
+        def __iter__(self):
+            return self
+
+        def __next__(self):
+            return None
+
+    async def async_fn():
+        return None
+
+    async_obj = async_fn()
+    nongen = {-1: 42, -2: nongen_fn, -3: None, -4: 'generator', -5: [1, 2], -6: iter([1, 2]),
+              -7: range(3), -8: HandIterator(), -9: map(abs, [1, -2]), -10: zip([1], [2]),
+              -11: async_obj, -12: (lambda: None)}
 
     def obj(g):
         return table[g] if g >= 0 else nongen.get(g, 3.5)
@@ -357,6 +370,7 @@ def run(case):
             obs.append(v)
         else:
             obs.append(do(kind, o[1], top=True))
+    async_obj.close()
     # release: drop every reference of the harness, see who survives
     # (the processor stays referenced from `proc` / the world)
     table.clear()
